@@ -101,7 +101,10 @@ Supported(maxm) ==
 (* repeated vertices: consecutive equal positions inside a member (a doubled corner, a two-point line of length zero) are
    part of the geometry and must survive; both codecs *)
 DupPath(b, n, at) == LET p == PathK(b, n) IN SubSeq(p, 1, at) \o <<p[at]>> \o SubSeq(p, at + 1, n)
+(* a point at every pair of pool values (the origin, signed zeros and the extreme values among them) *)
+AllPoints == {G("Point", <<a, b>>) : a \in 1..NIds, b \in 1..NIds}
 WithDuplicates ==
+    AllPoints \cup
     {G("LineString", DupPath(b, n, 1)) : b \in {0, 3}, n \in 1..3}
     \cup {G("LineString", DupPath(0, 3, at)) : at \in 1..3}
     \cup {G(t, <<DupPath(1, 3, at), PathK(5, 2)>>) : t \in {"MultiLineString", "Polygon"}, at \in 1..3}
